@@ -671,6 +671,15 @@ class CalSim:
             except Exception as e:  # noqa: BLE001
                 r["exc"] = (type(e).__name__, str(e)[:300])
             return r
+        if kind == "new_run":
+            # a different calibration is started in the same saving folder (stale-folder fault)
+            self.abandon()
+            self.cfg = op[1]
+            self.fault_idx = dict(self.fault_idx)
+            self.cal = self.build(self.cfg, folder=self.folder)
+            self.batches = []
+            self.stats["stale-folder"] += 1
+            return {"op": ["new_run"], "exc": None, "ret": None, "snap": self.snapshot()}
         if kind == "set_samplers":
             cs = random.Random(derive_seed("set_samplers", len(self.op_results)))
             self.cal.set_samplers([make_sampler(sp, cs.randrange(2 ** 31)) for sp in op[1]])
